@@ -1,6 +1,8 @@
 SPECIFICATION Spec
 CONSTANTS NL = 3
           NR = 4
+          K = 0
+          Dens = 0
 INVARIANT Valid
 INVARIANT BergeInv
 INVARIANT DoneMax
